@@ -31,6 +31,7 @@ import (
 	"oras.land/oras-go/v2/internal/registryutil"
 	"oras.land/oras-go/v2/internal/status"
 	"oras.land/oras-go/v2/internal/syncutil"
+	"oras.land/oras-go/v2/internal/verifhook"
 	"oras.land/oras-go/v2/registry"
 )
 
@@ -267,6 +268,7 @@ func copyGraph(ctx context.Context, src content.ReadOnlyStorage, dst content.Sto
 				return err
 			}
 		}
+		verifhook.AtKey("copy.node.successorsDone", desc.Digest.String())
 
 		exists, err = proxy.Cache.Exists(ctx, desc)
 		if err != nil {
